@@ -226,3 +226,25 @@ PROPS["C12"] = dict(
                 quick=dict(workers=16, checks=3000, steps=30, watchdog_s=900),
                 thorough=dict(workers=16, checks=250000, steps=40, watchdog_s=7200))],
 )
+
+PROPS["C08"] = dict(
+    level="fault_enumeration",
+    engine="medium",
+    technique="deterministic fault injection on a stored message: writer -> faulty medium -> regenerated Unmarshal vs dynamicpb reference; exhaustive single-fault enumeration (every truncation offset, every bit flip) per drawn small message plus seeded fault combinations; allocation metering",
+    design_ref="DESIGN.md 4.4, 5 (C08)",
+    level_text=("For drawn valid messages of every corpus type (87 types, three runtimes), written by the harness's reference encoder, the medium damages the stored bytes: for messages of "
+                "up to 48 bytes every truncation offset and every single-bit flip is enumerated, otherwise a drawn combination of up to three faults (truncate, bit flip, inflate/deflate a "
+                "length prefix incl. 2^31-1/2^31/2^63, duplicate or drop a record) is applied. The regenerated Unmarshal must not panic, must allocate linearly in the input, and whenever "
+                "it and the reference runtime (dynamicpb on the schema's own descriptor) both accept, the decoded messages must have the same canonical digest. A reader rejecting what the "
+                "other accepts is not a violation (the property only constrains the accept/accept case). No scheduler or clock is involved: this is the single-actor corner of the technique."),
+    level_note="Trusted: the reference encoder, dynamicpb + protodesc, protobuf-go's legacy wrapper for reading gogo structs, runtime/metrics.",
+    needs=["corpus"],
+    rule=("one execution = one drawn message of one corpus type and either all single faults of that message or one drawn fault combination; evaluations counts executions, logical_steps counts "
+          "damaged variants read; non-trivial = at least one variant was read by both readers' pipeline; distinct = hash of type and message bytes"),
+    real=["regenerated default-mode Unmarshal of all example types", "csproto.Decoder underneath", "protobuf-go dynamicpb reader (oracle)"],
+    model=["writer (reference encoder)", "medium"],
+    assumptions=["enableunsafedecode builds are not regenerated; termination is enforced by the worker watchdog rather than per call"],
+    tests=[dict(name="TestC08Medium", pkg="c08", race=False, mem_gb=40,
+                quick=dict(workers=16, checks=6000, steps=1, watchdog_s=900),
+                thorough=dict(workers=16, checks=150000, steps=1, watchdog_s=7200))],
+)
